@@ -58,16 +58,23 @@ def gen_case(rng, mode, corrupt):
             # index at the boundaries of its 24 bits -- the [E81] rule compares with the CDW of the page before
             ws = [itsgen.ihw(lanes=0x0FFFFFFF), itsgen.tdh(trigger_type=0x010, internal=1, no_data=0, continuation=0, bc=10 + pg, orbit=1),
                   itsgen.cdw(index=rng.choice([0, 0, 1, 2, 0xFF, 0x100, 0xFFFF, 0x10000, 0xFFFFFF]), user=rng.choice(users))] + ws[:rng.randrange(0, 5)] + [itsgen.tdt(packet_done=1)]
-        # keep the payload inside the guards of C12 (no 0xFF last byte, bytes 10..15 not all zero for format 2)
+        # keep the payload inside the guards of C12 (no 0xFF last byte, bytes 10..15 not all zero for format 2) ...
+        ffpad = None
         if ws[-1][9] == 0xFF:
             ws[-1] = ws[-1][:9] + b"\x00"
+        # ... except for this boundary: the LAST word of a format-2 page carries the (illegal) identifier 0xFF and is followed by so little
+        # padding that the trailing 0xFF run stays within 9 bytes -- the unchanged code examines the word like any other (seed C09-H;
+        # longer runs are the class of known finding F13)
+        if fmt == 2 and not calib and rng.random() < 0.08:
+            ws[-1] = ws[-1][:8] + bytes([rng.randrange(0, 255), 0xFF])
+            ffpad = rng.randrange(0, 9)
         if fmt == 2 and len(ws) > 1 and ws[1][:6] == b"\x00" * 6:
             ws[1] = b"\x01" + ws[1][1:]
         # the RDH's page counter / stop bit are not inputs of the word classification: any values, in particular a packet that
         # claims to open a heartbeat frame (page 0, no stop) while the state machine is in the middle of one
         pages = rng.choice([pg, pg, 0, 0, rng.randrange(4)])
         stop = rng.choice([0, 0, 0, 1])
-        r, p = itsgen.packet(ws, fmt=fmt, ff=None if fmt == 2 else 0, orbit=1, pages=pages, stop=stop, fee=0x502A, link=3)
+        r, p = itsgen.packet(ws, fmt=fmt, ff=(ffpad if fmt == 2 else 0), orbit=1, pages=pages, stop=stop, fee=0x502A, link=3)
         pkts.append((off, r, p))
         meta.append((off, 16 if fmt == 0 else 10, ws))
         off += 64 + len(p)
